@@ -867,7 +867,14 @@ fn multi_target(run: &mut Run) {
                     let desc = format!("mode={mode:?} protocol={proto} targets={n_targets} dns-resolve-all={resolve_all}");
                     let several = n_targets > 1 || resolve_all;
                     let single_only_mode = matches!(mode, Mode::Stream | Mode::Pretty | Mode::Markdown | Mode::Csv | Mode::Json);
-                    match guarded(|| verif_build_config(a, Sections::new().into_file(true), &privilege(), PID)) {
+                    let r = guarded(|| verif_build_config(a, Sections::new().into_file(true), &privilege(), PID));
+                    // the model of `validate_multi` answers the same question (where no other validator interferes)
+                    if !(matches!(mode, Mode::Dot | Mode::Flows) && proto != 'u') {
+                        let m = format!("{mode:?}").to_lowercase();
+                        run.op(format!("cfgb multi {m} {proto} {n_targets} {}", u8::from(resolve_all)),
+                            match &r { Ok(Ok(_)) => "ok".into(), Ok(Err(_)) => "err".into(), Err(_) => "panic".into() });
+                    }
+                    match r {
                         Err(p) => run.fail("c16-build-config-panics", format!("{desc} ({p})")),
                         Ok(Ok(_)) => {
                             if several && (proto != 'i' || single_only_mode) {
